@@ -1268,7 +1268,15 @@ class Mailbox:
         notifications.append(f"* {num_msgs} EXISTS\r\n")
         notifications.append(f"* {num_recent} RECENT\r\n")
         for c in self.clients.values():
-            await c.client.push(*notifications)
+            # A client that still has notifications queued for it (EXPUNGEs
+            # it could not be sent yet) has to see those first: the count we
+            # are announcing already has them applied. Announcing it ahead of
+            # them would leave the client one message short for good.
+            #
+            if c.pending_notifications and not c.idling:
+                c.pending_notifications.extend(notifications)
+            else:
+                await c.client.push(*notifications)
 
         self.num_msgs = num_msgs
         self.num_recent = num_recent
